@@ -99,6 +99,75 @@ def C07(rep, prog, tier):
     part.check_all(rep, ex)
 
 
+def _mcs_operators(rep, ex, table, strict=True, extended=True, rec=True):
+    for key, name, lex in ((("system-w", False), "rc2", False), (("system-w", True), "z3", False),
+                           (("lex_inf", False), "rc2", True), (("lex_inf", True), "z3", True)):
+        cls = _class_of(table, key)
+        if not cls:
+            continue
+        be = mcsops.Backend(name, cls, lex=lex)
+        pre = "LEX" if lex else "W"
+        mcsops.preprocess_flow(rep, ex, be, pre)
+        if rec:
+            if lex:
+                mcsops.lex_rec(rep, ex, be)
+                mcsops.lex_ties(rep, ex, be)
+                mcsops.lex_strict_shortcuts(rep, ex, be)
+            else:
+                mcsops.w_rec(rep, ex, be)
+        mcsops.w_entry(rep, ex, be, strict=strict, extended=extended, prefix=pre, n_objects=2 if lex else 1)
+        if name == "z3":
+            enum.z3mcs(rep, ex, cls)
+
+
+def C11(rep, prog, tier):
+    rep.explanation = ("C11: BACKEND.dispatch / engine-neutral, and W.siblings / LEX.siblings / EXT.siblings: the rc2 and z3 "
+                       "implementations of System W and of lexicographic inference are brought to one abstract form (hard/soft item "
+                       "sets per correction-set computation, decision tables, tie constraints, start index, infinity layer, vacuity, "
+                       "enumeration blocking and termination) and must discharge the same obligation table slot by slot; Z3.translate")
+    ex = Explorer(prog, rep)
+    table = wrappers.dispatch(rep, ex)
+    wrappers.backend_dispatch(rep, ex)
+    _mcs_operators(rep, ex, table)
+    enum.loop(rep, ex)
+    enum.violated(rep, ex)
+    enum.block(rep, ex)
+    enum.minimal(rep, ex)
+
+
+def C09(rep, prog, tier):
+    rep.explanation = ("C09 (three clauses): D1 reflexivity/supraclassicality through the shared short cut and its dominance; D2 "
+                       "(Bottom|A) only for unsatisfiable A: each operator answers False when A∧B has no (feasible) model but A∧¬B has; D3 "
+                       "direct inference needs faithful CNFs including constants. And, Or, cautious monotony, Cut, rational monotony, "
+                       "left logical equivalence and right weakening relate answers of different queries and are not decided")
+    ex = Explorer(prog, rep)
+    table = wrappers.dispatch(rep, ex, report=False)
+    keep = {"SHORTCUT.guard", "SHORTCUT.dominance", "Z.decision", "Z.tests", "Z.layer-assert", "W.subset-test", "W.decision", "W.soft/hard",
+            "LEX.cardinality", "LEX.strict-shortcuts", "LEX.soft/hard", "CNF.roles", "CNF.literals", "CNF.constants", "C.query-edges"}
+    rep.only = keep
+    try:
+        wrappers.shortcut_guard(rep, ex)
+        wrappers.shortcut_dominance(rep, ex)
+        cls = _class_of(table, ("system-z", None))
+        if cls:
+            sysz.rec(rep, ex, cls)
+        for key, name, lex in ((("system-w", False), "rc2", False), (("system-w", True), "z3", False),
+                               (("lex_inf", False), "rc2", True), (("lex_inf", True), "z3", True)):
+            cls = _class_of(table, key)
+            if cls:
+                be = mcsops.Backend(name, cls, lex=lex)
+                if lex:
+                    mcsops.lex_rec(rep, ex, be)
+                    mcsops.lex_strict_shortcuts(rep, ex, be)
+                else:
+                    mcsops.w_rec(rep, ex, be)
+        cnf.roles(rep, ex)
+        cnf.literals(rep, ex)
+        cnf.constants_handling(rep, ex)
+    finally:
+        rep.only = None
+
+
 def C14(rep, prog, tier):
     rep.explanation = ("C14: CHECK.three-way (a z3 check() result reaches model() only when it is sat; `unknown` ends in a flagged "
                        "expiry) on the optimizer loops of both z3 operators, TIMEOUT.flow (no handler between the raise sites and the "
@@ -143,4 +212,4 @@ def C06(rep, prog, tier):
     wrappers.shortcut_dominance(rep, ex)
 
 
-CHECKS = {"C01": C01, "C02": C02, "C03": C03, "C04": C04, "C06": C06, "C07": C07, "C14": C14, "C15": C15}
+CHECKS = {"C01": C01, "C02": C02, "C03": C03, "C04": C04, "C06": C06, "C07": C07, "C09": C09, "C11": C11, "C14": C14, "C15": C15}
